@@ -278,8 +278,9 @@ theorem skel_Channel_close : Gen.Skel.Channel_close =
     "call:_inbound.clear", "endif", "call:set_state", "endtry"] := by decide
 
 theorem skel_Channel_stop_consuming : Gen.Skel.Channel_stop_consuming =
-  ["if", "r:consumer_tags", "then", "return", "endif", "if", "r:is_closed", "then", "for",
-    "r:consumer_tags", "do", "call:basic.cancel", "endfor", "endif", "call:remove_consumer_tag"] := by decide
+  ["if", "r:consumer_tags", "then", "return", "endif", "if", "r:is_closed", "then",
+    "call:remove_consumer_tag", "return", "endif", "while", "r:consumer_tags", "do", "for",
+    "r:consumer_tags", "do", "call:basic.cancel", "endfor", "endwhile"] := by decide
 
 theorem skel_Connection_close : Gen.Skel.Connection_close =
   ["acq:lock", "if", "r:is_closed", "then", "call:set_state", "endif", "call:heartbeat.stop",
